@@ -331,6 +331,14 @@ func (env *Env) elab(e Expr) (Val, error) {
 					if pf, ok := P.pures[nt.Obj().Pkg().Path()+"|"+key]; ok && len(pf.resT) == 1 && len(pf.paramT) == len(args)+1 {
 						return Val{T: app(P.sorts.sortOf(pf.resT[0]), pf.sym[0], append([]Term{v.T}, args...)...), GoT: pf.resT[0]}, nil
 					}
+					// library method with a pure extern contract: keyed "(pkg.T)|M" / "(*pkg.T)|M"
+					ek := "(" + nt.Obj().Pkg().Name() + "." + nt.Obj().Name() + ")|" + x.Name
+					if ptr {
+						ek = "(*" + nt.Obj().Pkg().Name() + "." + nt.Obj().Name() + ")|" + x.Name
+					}
+					if pf, ok := P.pures[ek]; ok && len(pf.resT) == 1 && len(pf.paramT) == len(args)+1 {
+						return Val{T: app(P.sorts.sortOf(pf.resT[0]), pf.sym[0], append([]Term{v.T}, args...)...), GoT: pf.resT[0]}, nil
+					}
 				}
 			}
 		}
